@@ -95,9 +95,16 @@ def find_function(toks, name, scope=None, params_re=None, ordinal=None):
     depth = 0
     while i < hi:
         t = toks[i]
-        if t.kind == 'id' and t.text == name and i + 1 < hi and toks[i + 1].text == '(' \
-                and (i == 0 or toks[i - 1].text not in ('.', '->', 'return', '=', '(', ',', '!', '&&', '||')):
-            rp = match_close(toks, i + 1)
+        # operator functions: name "operator==" / "operator<" / "operator()" = token `operator` + the operator token(s) + parameter list
+        opk = None
+        if name.startswith('operator') and len(name) > 8 and t.kind == 'id' and t.text == 'operator':
+            optoks = [y.text for y in lex(name[8:])]
+            if [y.text for y in toks[i + 1:i + 1 + len(optoks)]] == optoks and i + 1 + len(optoks) < hi and toks[i + 1 + len(optoks)].text == '(':
+                opk = i + 1 + len(optoks)
+        if opk is not None or (t.kind == 'id' and t.text == name and i + 1 < hi and toks[i + 1].text == '(' \
+                and (i == 0 or toks[i - 1].text not in ('.', '->', 'return', '=', '(', ',', '!', '&&', '||'))):
+            lp_ = opk if opk is not None else i + 1
+            rp = match_close(toks, lp_)
             j = rp + 1
             while j < hi and toks[j].text in ('const', 'noexcept', 'override', 'final'):
                 j += 1
@@ -115,9 +122,9 @@ def find_function(toks, name, scope=None, params_re=None, ordinal=None):
                     j += 1
             if j < hi and toks[j].text == '{':
                 rb = match_close(toks, j)
-                ptxt = text_of(toks[i + 2:rp])
+                ptxt = text_of(toks[lp_ + 1:rp])
                 if params_re is None or re.search(params_re, ptxt):
-                    hits.append((i, i + 1, rp, j, rb))
+                    hits.append((i, lp_, rp, j, rb))
                 i = rb
         i += 1
     if ordinal is not None:
